@@ -11,11 +11,12 @@ fn usage() -> ! {
 
 fn main() {
     // anyhow captures a backtrace (global lock, slow) for every injected error when this is on
-    std::env::set_var("RUST_LIB_BACKTRACE", "0");
     let args: Vec<String> = std::env::args().collect();
+    // context children keep the environment they were given (that is what they are run for)
     if args.len() >= 3 && args[1] == "ctx-child" {
         checks::context::child(&args[2..]);
     }
+    std::env::set_var("RUST_LIB_BACKTRACE", "0");
     engine::panic::install_hook();
     if args.len() >= 6 && args[1] == "c19-child" {
         checks::c19::child(&args[2..]);
